@@ -82,7 +82,20 @@ func genHistory(r *rng) string {
 		}
 		// a collection derived by Append of one more (NonFinal, auto-desired) provider
 		e3 := parseChain(base)
-		e3.provs = append(e3.provs, &cprovider{pid: pidMarker, shape: 2, annots: aNonFinal})
+		var fin *cprovider
+		for _, p := range e3.provs {
+			if p.annots&aNonFinal == 0 {
+				fin = p
+			}
+		}
+		if fin != nil && fin.shape == 2 && fin.cluster == 0 && r.chance(1, 3) {
+			// ... or of a new final function returning what the old one returned: the old final
+			// function becomes an ordinary provider (nothing a Condense or Bind of the base did to it
+			// while it was the final function may stick)
+			e3.provs = append(e3.provs, &cprovider{pid: pidMarker, shape: 2, outs: append([]int{}, fin.outs...)})
+		} else {
+			e3.provs = append(e3.provs, &cprovider{pid: pidMarker, shape: 2, annots: aNonFinal})
+		}
 		return fmt.Sprintf("H %d %d ## %s ## %s ## %s", 1+r.intn(1<<30), gpos, base, e3.encode(), late.encode())
 	}
 }
